@@ -1459,6 +1459,10 @@ class VacancyMediated(object):
         probS = np.array([probSsites[sites[0]] for sites in self.sitelist])  # Wyckoff positions
         bFSVkin = np.array([bFS[s] + bFV[v] for (s, v) in self.kineticsvWyckoff])  # NOT EXCESS: total
         prob = np.array([probS[s] * probV[v] for (s, v) in self.kineticsvWyckoff])
+        # reference (non-interacting) probability of each solute-vacancy state; includes the solute site
+        # probability, which differs between Wyckoff positions when the solute site energies do
+        prob0 = prob.copy()
+        probVsqrt = np.array([np.sqrt(prob0[starindex]) for starindex in self.vstar2kin])
         for tindex, kindex in enumerate(self.thermo2kin):
             bFSVkin[kindex] += bFSV[tindex]
             prob[kindex] *= np.exp(-bFSV[tindex])
@@ -1483,8 +1487,14 @@ class VacancyMediated(object):
         symmprobSV2 = np.array([np.sqrt(prob[i] * prob[f]) for i,f in self.om2_SP])
         D0ss = np.dot(self.Dom2, omega2 * symmprobSV2) / self.N
         D0sv = -D0ss
+        # reference terms: omega0 rates weighted with the non-interacting state probabilities; for the
+        # exchange the vacancy lands on the solute site, whose occupation is the mean of the two endpoints
+        probS0 = np.array([probS[s] for (s, v) in self.kineticsvWyckoff])
+        ref1 = np.array([omega0[jt] * np.sqrt(prob0[i] * prob0[f]) for jt, (i, f) in zip(self.om1_jt, self.om1_SP)])
+        ref2 = np.array([omega0[jt] * np.sqrt(prob0[i] * prob0[f] / (probS0[i] * probS0[f])) * 0.5 * (probS0[i] + probS0[f])
+                         for jt, (i, f) in zip(self.om2_jt, self.om2_SP)])
         D0vv = (np.dot(self.Dom1, omega1 * symmprobSV1) -
-                np.dot(self.Dom1_om0 + self.Dom2_om0, omega0 * symmprobV0)) / self.N
+                np.dot(self.Dom1, ref1) - np.dot(self.Dom2, ref2)) / self.N
         D2vv = D0ss.copy()
 
         # 4b. Bias vectors (before correction) and rate matrices
